@@ -27,6 +27,13 @@ fn num(n: &Number) -> Value {
 /// document form so that they compare with document values
 pub fn schema_to_jv(v: &Value, in_enum: bool) -> Value {
     match v {
+        // schemars writes integer bounds as 0.0, 1.0, 255.0: in a SCHEMA (outside enum) they are integers
+        Value::Number(n) if !in_enum && n.as_u64().is_none() && n.as_i64().is_none()
+            && n.as_f64().map(|f| f.fract() == 0.0 && f.abs() < 4294967296.0).unwrap_or(false) => {
+            let f = n.as_f64().unwrap();
+            let u = f.abs() as u64;
+            json!({"t": "n", "int": true, "neg": f < 0.0, "hi": u >> 16, "lo": u & 0xffff})
+        }
         Value::String(s) if !in_enum => json!({"t": "s", "v": s.chars().map(|c| if c.is_ascii() && c != '"' && c != '\\' && !c.is_control() { c } else { '?' }).collect::<String>()}),
         Value::Array(a) => json!({"t": "a", "v": a.iter().map(|x| schema_to_jv(x, in_enum)).collect::<Vec<_>>()}),
         Value::Object(o) => json!({"t": "o", "k": o.keys().collect::<Vec<_>>(),
